@@ -274,7 +274,7 @@ theorem rewindLoop_quiet (now : Int) : ∀ (cs : List StepCfg) (st : State) (cmd
     rw [hset]
     exact rewindLoop_quiet now cs st cmds (fun d hd => h d (by simp [hd]))
 
-theorem hasStep_of_mem {cfg : Cfg} {c : StepCfg} (hc : c ∈ cfg.steps) : cfg.hasStep c.name = true :=
+theorem hasStep_of_mem_steps {cfg : Cfg} {c : StepCfg} (hc : c ∈ cfg.steps) : cfg.hasStep c.name = true :=
   (hasStep_iff_mem cfg c.name).mpr (List.mem_map_of_mem hc)
 
 /-- the runner resumed from the serialised context of a parked runner: same state, same clock, nothing else -/
@@ -286,7 +286,7 @@ theorem init_parked (cfg : Cfg) (r : Runner) (h : Parked cfg r) :
   have hrw : rewind cfg r.st r.now = (r.st, []) := by
     unfold rewind
     exact rewindLoop_quiet r.now (sortedSteps cfg) r.st [] (fun c hc =>
-      h.quiet c.name (hasStep_of_mem (mem_sortedSteps_iff.mp hc)))
+      h.quiet c.name (hasStep_of_mem_steps (mem_sortedSteps_iff.mp hc)))
   simp only [hre, hrw, List.append_nil, execCmds]
 
 /-- a parked runner is its own resumed runner, plus history -/
